@@ -1011,7 +1011,7 @@ def diagonal(x, offset=0):
     return _A(x).diagonal(offset)
 
 
-def sum(x, axis=None, keepdims=False):
+def sum(x, axis=None, keepdims=False, dtype=None):
     if not isinstance(x, (SymArray, sparse_matrix)) and isinstance(x, (list, tuple)) and len(x) == 0:
         return Sym.const(0)
     x = _A(x)
@@ -1034,14 +1034,14 @@ def prod(x, axis=None):
     return _wrap(r, x.dt)
 
 
-def mean(x, axis=None):
+def mean(x, axis=None, dtype=None):
     x = _A(x)
     if axis is None:
         return sum(x) / x.a.size
     return sum(x, axis=axis) / x.a.shape[axis]
 
 
-def std(x, axis=None, ddof=0):
+def std(x, axis=None, ddof=0, dtype=None):
     x = _A(x)
     if axis is not None:
         raise Unsupported("std along an axis")
